@@ -48,6 +48,14 @@ Fixpoint mapM {A B} (f : A -> res B) (l : list A) : res (list B) :=
   | x :: xs => do y <- f x; do ys <- mapM f xs; Ok (y :: ys)
   end.
 
+(* collect the results of a list of computations, first panic wins *)
+Fixpoint sequence {A} (l : list (res A)) : res (list A) :=
+  match l with
+  | [] => Ok []
+  | Ok x :: r => do xs <- sequence r; Ok (x :: xs)
+  | Panic c :: _ => Panic c
+  end.
+
 Fixpoint foldM {A S} (f : S -> A -> res S) (l : list A) (s : S) : res S :=
   match l with
   | [] => Ok s
